@@ -9,6 +9,7 @@ and causing an [override] type error in the plugins implementation.
 
 from __future__ import annotations
 
+import sys
 from pathlib import Path
 from typing import TYPE_CHECKING
 from typing import TypeVar
@@ -33,6 +34,7 @@ from glotaran.plugin_system.io_plugin_utils import infer_file_format
 from glotaran.plugin_system.io_plugin_utils import not_implemented_to_value_error
 from glotaran.plugin_system.io_plugin_utils import protect_from_overwrite
 from glotaran.utils.ipython import MarkdownStr
+from glotaran.utils import verif_trace as _vt
 
 if TYPE_CHECKING:
     from collections.abc import Callable
@@ -258,11 +260,26 @@ def save_model(
         Additional keyword arguments passes to the ``save_model`` implementation
         of the project io plugin.
     """
+    if _vt.ENABLED:
+        _vt.emit(
+            "save_begin",
+            fn="save_model",
+            cid=id(sys._getframe()),
+            target=Path(file_name).resolve().as_posix(),
+            fmt=format_name,
+            allow=bool(allow_overwrite),
+        )
     protect_from_overwrite(file_name, allow_overwrite=allow_overwrite)
     io = get_project_io(format_name or infer_file_format(file_name, needs_to_exist=False))
+    if _vt.ENABLED:
+        _vt.emit(
+            "save_plugin", fn="save_model", cid=id(sys._getframe()), plugin=type(io).__name__
+        )
     io.save_model(file_name=Path(file_name).as_posix(), model=model, **kwargs)
     if update_source_path is True:
         model.source_path = Path(file_name).as_posix()
+    if _vt.ENABLED:
+        _vt.emit("save_end", fn="save_model", cid=id(sys._getframe()))
 
 
 @not_implemented_to_value_error
@@ -324,11 +341,26 @@ def save_parameters(
         Additional keyword arguments passes to the ``save_parameters`` implementation
         of the project io plugin.
     """
+    if _vt.ENABLED:
+        _vt.emit(
+            "save_begin",
+            fn="save_parameters",
+            cid=id(sys._getframe()),
+            target=Path(file_name).resolve().as_posix(),
+            fmt=format_name,
+            allow=bool(allow_overwrite),
+        )
     protect_from_overwrite(file_name, allow_overwrite=allow_overwrite)
     io = get_project_io(format_name or infer_file_format(file_name, needs_to_exist=False))
+    if _vt.ENABLED:
+        _vt.emit(
+            "save_plugin", fn="save_parameters", cid=id(sys._getframe()), plugin=type(io).__name__
+        )
     io.save_parameters(file_name=Path(file_name).as_posix(), parameters=parameters, **kwargs)
     if update_source_path is True:
         parameters.source_path = Path(file_name).as_posix()
+    if _vt.ENABLED:
+        _vt.emit("save_end", fn="save_parameters", cid=id(sys._getframe()))
 
 
 @not_implemented_to_value_error
@@ -386,11 +418,26 @@ def save_scheme(
         Additional keyword arguments passes to the ``save_scheme`` implementation
         of the project io plugin.
     """
+    if _vt.ENABLED:
+        _vt.emit(
+            "save_begin",
+            fn="save_scheme",
+            cid=id(sys._getframe()),
+            target=Path(file_name).resolve().as_posix(),
+            fmt=format_name,
+            allow=bool(allow_overwrite),
+        )
     protect_from_overwrite(file_name, allow_overwrite=allow_overwrite)
     io = get_project_io(format_name or infer_file_format(file_name, needs_to_exist=False))
+    if _vt.ENABLED:
+        _vt.emit(
+            "save_plugin", fn="save_scheme", cid=id(sys._getframe()), plugin=type(io).__name__
+        )
     io.save_scheme(file_name=Path(file_name).as_posix(), scheme=scheme, **kwargs)
     if update_source_path is True:
         scheme.source_path = Path(file_name).as_posix()
+    if _vt.ENABLED:
+        _vt.emit("save_end", fn="save_scheme", cid=id(sys._getframe()))
 
 
 @not_implemented_to_value_error
@@ -458,10 +505,23 @@ def save_result(
     list[str] | None
         List of file paths which were saved.
     """
+    if _vt.ENABLED:
+        _vt.emit(
+            "save_begin",
+            fn="save_result",
+            cid=id(sys._getframe()),
+            target=Path(result_path).resolve().as_posix(),
+            fmt=format_name,
+            allow=bool(allow_overwrite),
+        )
     protect_from_overwrite(result_path, allow_overwrite=allow_overwrite)
     io = get_project_io(
         format_name or infer_file_format(result_path, needs_to_exist=False, allow_folder=True)
     )
+    if _vt.ENABLED:
+        _vt.emit(
+            "save_plugin", fn="save_result", cid=id(sys._getframe()), plugin=type(io).__name__
+        )
     paths = io.save_result(
         result_path=Path(result_path).as_posix(),
         result=result,
@@ -470,6 +530,8 @@ def save_result(
     )
     if update_source_path is True:
         result.source_path = Path(result_path).as_posix()
+    if _vt.ENABLED:
+        _vt.emit("save_end", fn="save_result", cid=id(sys._getframe()))
     return paths
 
 
